@@ -45,12 +45,12 @@ def live3_part(tier, mon, kinds=None):
         shapes = [('AB', 'A', 'C'), ('D', 'A'), ('C', 'D', 'AB'), ('A', 'AB')]
         second = HMixed(max_list=1, story_L=1, meta_subsets=1)
         third = HMixed(max_list=1, story_L=1, meta_subsets=1, kinds=kinds)
-        per = dict(first_per_kind=1, second_per_kind=1, third_per_kind=4)
+        per = dict(first_per_kind=2, second_per_kind=1, third_per_kind=3)
     else:
         shapes = [('A',), ('A', 'AB'), ('AB', 'A', 'C'), ('D', 'A'), ('C', 'D', 'AB')]
         second = HMixed(max_list=1, story_L=2, meta_subsets=1)
         third = HMixed(max_list=2, story_L=2, meta_subsets=1, kinds=kinds)
-        per = dict(first_per_kind=1, second_per_kind=2, third_per_kind=8)
+        per = dict(first_per_kind=2, second_per_kind=2, third_per_kind=6)
     first = HMixed(max_list=1, story_L=1, meta_subsets=1, layouts=layouts, init_shapes=shapes)
     # the work of one initial state is first x second x third messages; the explorer distributes states over its workers,
     # so each shape is given in three layouts and each copy starts the histories of one third of the message classes
